@@ -93,10 +93,15 @@ sim::Json generate(const std::string& tier, uint64_t seed, uint64_t index) {
   place_options(rng, sc, opts);
 
   // option file
+  bool optfile = false;
   if (rng.chance(0.06)) {
     sc.ref("files").set("drv.opt", "# options\ntech:intopt=3\n" + std::string(rng.chance(0.3) ? "nosuch=1\n" : "tech:dblopt 2.5\n"));
     sc.ref("argv").push("tech:optionfile=@/drv.opt");
     if (label == "LINEAR_CLEAN") label = "LINEAR_OPTS";
+    optfile = true;
+  } else if (rng.chance(0.01)) {     // an option file that opens but cannot be read (a directory) or does not exist
+    sc.ref(rng.chance(0.5) ? "argv" : "argv").push(rng.chance(0.6) ? "tech:optionfile=@/." : "optionfile=@/nosuch.opt");
+    if (label == "LINEAR_CLEAN" || label == "LINEAR_OPTS" || label == "GENERAL") label = "BADOPT";
   }
 
   // solver script
@@ -138,7 +143,7 @@ sim::Json generate(const std::string& tier, uint64_t seed, uint64_t index) {
       else if (k < 14) { f.role = "nl"; f.op = "close"; f.k = 0; f.kind = "EIO"; }
       else if (k < 16) { f.role = rng.chance(0.5) ? "col" : "row"; f.op = rng.chance(0.6) ? "open" : "mmap"; f.k = 0; f.kind = f.op == "open" ? (rng.chance(0.5) ? "EACCES" : "EMFILE") : "ENOMEM"; }
       else if (k < 18) { f.role = "graph"; f.op = rng.chance(0.3) ? "fopen" : "write"; f.k = (int)rng.below(3); f.kind = f.op == "fopen" ? "EACCES" : (rng.chance(0.5) ? "ENOSPC" : "EIO"); }
-      else if (k < 19) { f.role = "opt"; f.op = "fopen"; f.k = 0; f.kind = "EACCES"; }
+      else if (k < 19) { f.role = "opt"; f.op = optfile && rng.chance(0.5) ? "read" : "fopen"; f.k = 0; f.kind = f.op == "read" ? "EIO" : "EACCES"; }
       else { f.role = "stdout"; f.op = "write"; f.k = 0; f.kind = "EAGAIN"; }
       sc.ref("faults").push(f.to_json());
       faulted = true;
